@@ -169,11 +169,13 @@ def _run_case(case, ctx, fam):
     for i, op in enumerate(case["seq"]):
         _ST["step"] = i
         twin = H.fresh_like(state, m) if op.startswith("pred") else None
+        ctx.info[f"attempted:{case['family']}:{op}"] += 1
         try:
             out = H.apply_op(case["family"], m, op, state)
         except Exception as e:
             ctx.reject(f"operation raised: {case['family']}:{op}: {type(e).__name__}: {str(e)[:60]}")
             ctx.info["rejected_history:" + type(e).__name__] += 1
+            ctx.info[f"raised:{case['family']}:{op}:{type(e).__name__}"] += 1  # (an operation that ALWAYS raises for a family is a blind spot: tools/blindspots.py)
             return
         if not all(bool(__import__("torch").isfinite(p_).all()) for p_ in m.parameters()):
             ctx.reject(f"operation produced non-finite parameters: {case['family']}:{op}")
